@@ -63,8 +63,9 @@ def multiply(
     shape = numpy.broadcast_shapes(x1.shape, x2.shape)
 
     where = numpy.asarray(where)
+    # summed as int64: uint32 sums would wrap instead of being rejected
     exponents = numpy.unique(
-        numpy.tile(x1.exponents, (len(x2.exponents), 1))
+        numpy.tile(x1.exponents, (len(x2.exponents), 1)).astype(int)
         + numpy.repeat(x2.exponents, len(x1.exponents), 0),
         axis=0,
     )
